@@ -144,4 +144,9 @@ CLAIMS = {
    note="Symbolic signatures (valid_sign, valid_unique: Ed25519 / RSA deterministic and unforgeable); dag-json + base64url payload formatting is an injective oracle (json_inj, json_canon, join_inj are Section hypotheses, exercised through VerifySignature but not modelled byte for byte); DID/CID strings injective (C14); go-ipld-prime dag-cbor as Cbor.v (checked). Top-level null caveats and integers above int64 are outside the generator (cannot be issued / re-read; not in the property's kinds). Requires fix 17420c3. No axioms.",
    technique='Coq proof (issue/verify law, byte-level round trip, payload injectivity => tamper detection; symbolic crypto) + byte-for-byte layout correspondence + behavioural oracle over all option subsets and single-field alterations',
    ref='5/C07'),
+ "C10": dict(
+   text="Coq (ReceiptFormat.v over Cbor.v): C10_sig — every issued receipt carries its issuer's signature over the DAG-CBOR encoding of its outcome; C10_transport / C10_readback — decoding the transported root block gives back every field (result value, ran, fork, join, metadata, issuer, proofs, signature; maps in canonical order); C10_reencode + C10_verifies_after_transport — the decoded outcome re-encodes to exactly the signed bytes whatever the insertion order of metadata / result maps, so the signature still verifies; C10_tamper / C10_outcome_bytes_inj — a receipt with the same signature that verifies has the same outcome (all fields). Tie: receipts over ok/error results of all IPLD kinds, 0..3 forks (links / embedded invocations), join, 0..4 metadata keys, 0..2 proofs, embedded / bare ran, Ed25519 / RSA / wrapped signers, each passed through message.Build + the response codec: root block and outcome bytes must equal the model's; the harness verifies the signature over cbor(decoded outcome) of the transported block, after 12 alterations and for other principals; readers must return what was issued.",
+   note='Symbolic signatures (valid_sign, valid_unique); go-ipld-prime dag-cbor as Cbor.v (checked by bin/check CBOR and here). Requires fix commits d57f1f1 (any-result schema: error results unreadable), 9e7634b (embedded effects dropped in transport), fe311cc / d14015e (bare ran). No axioms.',
+   technique='Coq proof (sign/verify law, byte-level round trip and re-encoding identity, injectivity => tamper detection) + byte-for-byte layout correspondence + behavioural oracle through the real codecs',
+   ref='5/C10'),
 }
